@@ -246,11 +246,21 @@ def run(ctx):
                 # directed: non-ASCII text in scalar string members (metadata values and keys, node names), once under
                 # every string encoding, alone and combined with random other choices
                 directed = ["vlen-utf8", "vlen-ascii", "fixed-utf8-nul", "fixed-ascii-nul", "fixed-utf8-space"][i % 5]
-                md = {"d": [["label", {"s": "Größe 5µm"}], ["多", {"s": "键盘 😀"}], ["plain", {"s": "ascii only"}]]}
+                md = {"d": [["label", {"s": "Größe 5µm"}], ["多", {"s": "键盘 😀"}], ["plain", {"s": "ascii only"}],
+                            ["bom", {"s": "\ufeffstarts with U+FEFF"}], ["nfd", {"s": "cafe\u0301"}]]}
                 g = {"type": "NIRGraph", "meta": md, "edges": [["é", "é"], ["é", "relay "], ["relay ", "x"], ["x", "x"]],
                      "nodes": [["é", {"type": "Scale", "kwargs": [["scale", gen.arr(rng, [2], "<f8")], ["metadata", md]]}],
                                ["relay ", {"type": "Scale", "kwargs": [["scale", gen.arr(rng, [2], "<f8")]]}],
                                ["x", {"type": "Scale", "kwargs": [["scale", gen.arr(rng, [2], "<f8")]]}]]}
+            if 10 <= i < 14:
+                # directed: an optional member (the CubaLIF input weight) stored in a dtype of its own, wider than the
+                # parameters', holding values the narrower type cannot represent
+                pd, wd, vals = [("<f4", "<f8", [0.1, 1 / 3]), ("<f2", "<f4", [0.1, 1e-5]), ("<i8", "<f8", [0.5, 1.5]), ("<f4", "<f8", [1e-300, 0.1])][i - 10]
+                prm = lambda: {"a": pd, "sh": [2], "x": np.array([1, 2]).astype(pd).tobytes().hex()}
+                g = {"type": "NIRGraph", "meta": None, "edges": [["c", "c"]], "nodes": [["c", {"type": "CubaLIF", "kwargs": [
+                    ["tau_syn", prm()], ["tau_mem", prm()], ["r", prm()], ["v_leak", prm()], ["v_threshold", prm()],
+                    ["w_in", {"a": wd, "sh": [2], "x": np.array(vals).astype(wd).tobytes().hex()}]]}]]}
+                ctx.count("directed_cuba_w_in_wider_dtype")
             try:
                 ref = impl_construct(g)
                 bio = io.BytesIO(); nir.write(bio, ref)      # in the domain of C01 only if write accepts it
